@@ -466,3 +466,13 @@ package shwap
 //@ func (Sample).IsEmpty
 //@   property C06
 //@   ensures result <==> s.Proof == nil
+
+// ---------------------------------------------------------------------------------------------
+// RowNamespaceDataID (validation side; its wire form carries a namespace and is A-CODEC for now).
+//@ func (RowNamespaceDataID).Verify
+//@   property C18 C09
+//@   ensures err == nil ==> 0 <= rndid.RowID.RowIndex && rndid.RowID.RowIndex < edsSize && rndid.RowID.EdsID.height != 0
+
+//@ func NewRowNamespaceDataID
+//@   property C18 C09
+//@   ensures err == nil ==> result.RowID.RowIndex == rowIdx && 0 <= rowIdx && rowIdx < edsSize && height != 0
